@@ -13,6 +13,8 @@ func c15Sys(thorough bool) *mgrSys {
 	if thorough {
 		ups = append(ups, [2]string{"u5", "e1"})
 	}
-	return &mgrSys{Prop: "C15", Upstreams: ups, Endpoints: []string{"e1", "e2", "e3", "e4"}, Selects: true,
-		Remote: map[string][]string{"r1": {"e1", "e3"}, "r0": {"e2:0", "e4:0"}}}
+	// g1 is learned through gossip; "e5:x" contains the separator of the gossip
+	// key ("endpoint:<id>") and has a sibling "e5" that nobody serves
+	return &mgrSys{Prop: "C15", Upstreams: ups, Endpoints: []string{"e1", "e2", "e3", "e4", "e5", "e5:x"}, Selects: true,
+		Remote: map[string][]string{"r1": {"e1", "e3"}, "r0": {"e2:0", "e4:0"}, "g1": {"e5:x"}}}
 }
